@@ -276,6 +276,11 @@ func c04Units(tier string) []Unit {
 	// an optional tag never hides an error returned by a constructor
 	for _, beh := range []u.Beh{u.BehErr, u.BehPanic, u.BehErrVals} {
 		for _, rec := range []bool{false, true} {
+			if beh != u.BehErrVals {
+				// ... nor one that strikes while a decorator below the optional edge builds its arguments
+				add(fmt.Sprintf("optional-never-hides-errors/decorator-dependency/%v/recover=%v", beh, rec), h.Config{Recover: rec}, map[string][]u.Beh{"pC0e": {beh}}, prefixChild,
+					alpha{scopes: scopes2, ctors: []*uFunc{pA, pB, pC0e}, decos: []*uFunc{dAwC}, invokes: []*uFunc{iBo, iAo}}, d-1, explore.Budget{Provides: 3, Decorates: 1, Invokes: 2, Rejected: 0})
+			}
 			plans := map[string][]u.Beh{"pAe": {beh}, "pBe": {beh, u.BehOK}, "pBne": {beh}}
 			add(fmt.Sprintf("optional-never-hides-errors/%v/recover=%v", beh, rec), h.Config{Recover: rec}, plans, prefixChild,
 				alpha{scopes: scopes2, ctors: []*uFunc{pAe, pA, pBe, pBne, pBo, pCob}, invokes: []*uFunc{iAo, iBo, iCo, iO2, iBnO}}, d-1, b)
